@@ -532,7 +532,7 @@ func finish(w *World, verifDir string, spec *PropSpec, cr *CheckResult, seed int
 		// witnesses of one signature differ (3 per job are kept): a few of them may be
 		// unreplayable natively for incidental reasons, so up to 6 are tried
 		for i, v := range vs {
-			if i >= 6 {
+			if i >= spec.maxWitnesses() {
 				break
 			}
 			ok, p, o := replayViolation(w, verifDir, spec, v)
